@@ -154,13 +154,26 @@ def run(ctx):
         write_ndjson(hp, ctx.printed_json(r.out))
         batch(ctx, hp, "p%d" % i, deep=not quick and nn <= 3)
         os.unlink(hp)
+    # sampled larger graphs (5..7 nodes, 4..9 triples drawn uniformly; tlc -simulate of DigraphRandGen.tla): breadth-first levels with several nodes and
+    # several discoveries per node do not exist on four nodes
+    n_rand = 200 if quick else 2000
+    r = ctx.tlc(AREA, "DigraphRandGen", cfg_text="SPECIFICATION GSpec\nCONSTANTS\n  NMin = 5\n  NMax = 7\n  MMin = 4\n  MMax = 9\nCHECK_DEADLOCK FALSE\n", workers=1,
+                simulate="num=%d" % n_rand, depth=14, timeout=1800)
+    hs = ctx.printed_json(r.out)
+    if len(hs) < n_rand // 2:
+        raise ToolFailure("sampling generator printed %d graphs:\n%s" % (len(hs), r.out[-1500:]))
+    hp = os.path.join(ctx.work, "hist-rand.ndjson")
+    write_ndjson(hp, hs)
+    batch(ctx, hp, "rand", deep=False)
+    os.unlink(hp)
+    ctx.cov["sampled_larger_graphs"] = len(hs)
     ctx.cov["exhaustive"] = True
     ctx.cov["rule"] = ("TLC enumerates every directed multigraph with (node ids, triples, all deletion projections) = %s: isolated nodes, self "
                        "loops, parallel and antiparallel edges; each is built into the adjacency-map graph, the CSR graph, the triple store, "
                        "its projection and a nested projection, and node set, adjacency in three directions, Reach, BFSTree, Normalize, "
                        "EachEdge/EachAdjacentEdge, TSBFS/TSDFS walks, segment round trips and the zone BFS tree file are compared with the "
                        "Digraph.tla operators.  states/transitions = the generator's state graph.  non-trivial = self loop, parallel or "
-                       "antiparallel edges, an isolated node or a non-empty deletion set" % (plans,))
+                       "antiparallel edges, an isolated node or a non-empty deletion set; plus %d sampled multigraphs on 5..7 nodes with 4..9 uniformly drawn triples" % (plans, n_rand))
 
 
 def selftest(ctx):
